@@ -905,18 +905,18 @@ macro_rules! hreader {
     };
 }
 // --- cursor laws, nothing left to load ---------------------------------------------------------------------------
-// @obl harness=c17_reader_hdr_q0 id=C17.reader_step[block0;q=0] tier=quick also=C08 funcs="WalReader::next_ref" bounds="block 4096; cursor in block zero at offset 160; no block loaded, none unread (total_blocks = 1); fill level and record size symbolic" stubs="<DBFile as Seek>::seek,<DBFile as Read>::read" assume="RINV (see above)" unwind=6
+// @obl harness=c17_reader_hdr_q0 id=C17.reader_step[block0;q=0] tier=quick also=C01,C08 funcs="WalReader::next_ref" bounds="block 4096; cursor in block zero at offset 160; no block loaded, none unread (total_blocks = 1); fill level and record size symbolic" stubs="<DBFile as Seek>::seek,<DBFile as Read>::read" assume="RINV (see above)" unwind=6
 hreader!(c17_reader_hdr_q0, 0, None, 160, 1, 0, 6);
 // @obl harness=c17_reader_hdr_q2 id=C17.reader_step[block0;q=2] tier=thorough funcs="WalReader::next_ref" bounds="block 4096; cursor in block zero at offset 0; 2 blocks loaded, none unread (total_blocks = 3); fill levels and record sizes symbolic" stubs="<DBFile as Seek>::seek,<DBFile as Read>::read" assume="RINV" unwind=7
 hreader!(c17_reader_hdr_q2, 2, None, 0, 2, 0, 7);
-// @obl harness=c17_reader_blk_q1 id=C17.reader_step[block;q=1] tier=quick also=C08 funcs="WalReader::next_ref" bounds="block 4096; cursor in loaded block 0 at offset 96; 1 block loaded, none unread" stubs="<DBFile as Seek>::seek,<DBFile as Read>::read" assume="RINV" unwind=6
+// @obl harness=c17_reader_blk_q1 id=C17.reader_step[block;q=1] tier=quick also=C01,C08 funcs="WalReader::next_ref" bounds="block 4096; cursor in loaded block 0 at offset 96; 1 block loaded, none unread" stubs="<DBFile as Seek>::seek,<DBFile as Read>::read" assume="RINV" unwind=6
 hreader!(c17_reader_blk_q1, 1, Some(0), 96, 1, 0, 6);
 // @obl harness=c17_reader_blk_q2 id=C17.reader_step[block;q=2] tier=thorough funcs="WalReader::next_ref" bounds="block 4096; cursor in loaded block 0 at offset 0; 2 blocks loaded, none unread" stubs="<DBFile as Seek>::seek,<DBFile as Read>::read" assume="RINV" unwind=7
 hreader!(c17_reader_blk_q2, 2, Some(0), 0, 2, 0, 7);
 // --- crossing into blocks that still have to be loaded --------------------------------------------------------------
 // @obl harness=c17_reader_load_hdr id=C17.reader_step[block0;load1;k=1] tier=thorough funcs="WalReader::next_ref,WalReader::reload_blocks" bounds="block 4096; cursor in block zero at offset 160; no block loaded, 1 unread block (total_blocks = 2), read-ahead 1; content of the loaded block symbolic" stubs="<DBFile as Seek>::seek,<DBFile as Read>::read" assume="RINV" unwind=7
 hreader!(c17_reader_load_hdr, 0, None, 160, 1, 1, 7);
-// @obl harness=c17_reader_load_end id=C17.reader_step[queue_consumed;load2;k=2] tier=quick also=C08 funcs="WalReader::next_ref,WalReader::reload_blocks" bounds="block 4096; the single loaded block consumed (index 1, offset 0); 2 unread blocks (total_blocks = 4), read-ahead 2" stubs="<DBFile as Seek>::seek,<DBFile as Read>::read" assume="RINV" unwind=8
+// @obl harness=c17_reader_load_end id=C17.reader_step[queue_consumed;load2;k=2] tier=quick also=C01,C08 funcs="WalReader::next_ref,WalReader::reload_blocks" bounds="block 4096; the single loaded block consumed (index 1, offset 0); 2 unread blocks (total_blocks = 4), read-ahead 2" stubs="<DBFile as Seek>::seek,<DBFile as Read>::read" assume="RINV" unwind=8
 hreader!(c17_reader_load_end, 1, Some(1), 0, 2, 2, 8);
 // @obl harness=c17_reader_load_twice id=C17.reader_step[block;load1+1;k=1] tier=thorough funcs="WalReader::next_ref,WalReader::reload_blocks" bounds="block 4096; cursor in loaded block 0 at offset 0; 2 unread blocks (total_blocks = 4), read-ahead 1: up to two reloads in one call" stubs="<DBFile as Seek>::seek,<DBFile as Read>::read" assume="RINV" unwind=9
 hreader!(c17_reader_load_twice, 1, Some(0), 0, 1, 2, 9);
